@@ -190,10 +190,16 @@ func init() {
 	}
 	reg(Check{ID: "C05", Level: "model_checking", Assumptions: append([]string{
 		"loss: a complete value of n chunks is stored; every subset of {metadata, chunk 0..n-1} may be gone (2^(n+1) subsets, enumerated as environment choices; bytes, flags, token symbolic)",
-		"interleavings of two writers at backend-request granularity are not part of this check yet (token comparison is exercised by the C04 step from states whose token is arbitrary)",
+		"interleaved writers: the backend state is any per-entry mixture of two complete sets with distinct tokens (A2) and absent entries -- a superset of what interleaving the two writers' backend requests, or reading while they run, can produce",
 	}, chunkedAssumptions...),
-		Quick:    []Job{closs("loss-up-to-3-chunks", 3, "n = 1..3 chunks, last chunk full or 1 byte; readers: get, get-and-touch, append; every lost subset")},
-		Thorough: []Job{closs("loss-up-to-6-chunks", 6, "n = 1..6 chunks, every lost subset")}})
+		Quick: []Job{closs("loss-up-to-3-chunks", 3, "n = 1..3 chunks, last chunk full or 1 byte; readers: get, get-and-touch, append; every lost subset"),
+			{Pkg: "./handlers/memcached/chunked", Func: "ZZChunkedMixed", Setup: "ZZSetup", Name: "two-writers-mixed", Params: map[string]int64{"maxchunks": 2}, Reach: []string{"read-done"},
+				Bounds: "two sets of one key (1-2 chunks each, last chunk full / one byte short / one byte; values, flags, distinct tokens symbolic); every backend entry independently holds writer 1's version, writer 2's version or nothing (covers every interleaving of the writers' backend requests and a reader running while they are in progress); readers get, get-and-touch, append"},
+			cstep("multi-key-get", map[string]int64{"lenset": 0, "nkeys": 2, "cmd": 8, "c05": 1}, []string{"c05-"}, "one get of two keys (values 0-2 bytes, any presence): every response, compared after the whole batch has completed, is the value written for its own key"),
+			cstep("multi-key-get-border", map[string]int64{"lenset": 1, "nkeys": 2, "cmd": 8, "c05": 1}, []string{"c05-"}, "the same with value lengths {p-1,p,p+1}"),
+		},
+		Thorough: []Job{closs("loss-up-to-6-chunks", 6, "n = 1..6 chunks, every lost subset"),
+			{Pkg: "./handlers/memcached/chunked", Func: "ZZChunkedMixed", Setup: "ZZSetup", Name: "two-writers-mixed-3chunks", Params: map[string]int64{"maxchunks": 3}, Reach: []string{"read-done"}, Bounds: "as quick with 1-3 chunks per writer"}}})
 
 	reg(Check{ID: "C16", Level: "model_checking", Assumptions: append([]string{
 		"chunk count through float64: decided in the SMT floating-point theory per key length (constant divisor); key lengths between the listed ones are outside the claim for the FP detour (the integer kernels cover all 250)",
